@@ -13,6 +13,34 @@ use virtio_drivers::queue::VirtQueue;
 use virtio_drivers::transport::DeviceType;
 use virtio_drivers::verif::Event;
 
+/// Private driver state of a queue, read through the cfg-guarded hooks of /repo: `verif_snapshot` in the default build; in the
+/// alloc-less build (no `Vec` in the crate) the field-wise hooks of corpus/proposals/noalloc_hook.diff, which `./check` detects
+/// in the checkout and announces with the harness feature `na-hooks`. Without them: no private-state lines, no pre-set indices.
+#[derive(Clone, PartialEq, Eq, Debug)]
+pub struct Snap { pub num_used: u16, pub free_head: u16, pub avail_idx: u16, pub last_used_idx: u16,
+    pub shadow: Vec<(u64, u32, u16, u16)>, pub indirect: Vec<bool> }
+pub const HAVE_HOOKS: bool = cfg!(any(feature = "alloc", feature = "na-hooks"));
+/// the queue really uses indirect tables only in the build with `alloc` (VirtQueue::new ignores the request otherwise)
+pub const HAVE_INDIRECT: bool = cfg!(feature = "alloc");
+#[cfg(feature = "alloc")]
+pub fn snap<const N: usize>(q: &VirtQueue<LedgerHal, N>) -> Option<Snap> {
+    let s = q.verif_snapshot();
+    Some(Snap { num_used: s.num_used, free_head: s.free_head, avail_idx: s.avail_idx, last_used_idx: s.last_used_idx, shadow: s.shadow, indirect: s.indirect })
+}
+#[cfg(all(not(feature = "alloc"), feature = "na-hooks"))]
+pub fn snap<const N: usize>(q: &VirtQueue<LedgerHal, N>) -> Option<Snap> {
+    let (num_used, free_head, avail_idx, last_used_idx) = q.verif_scalars();
+    Some(Snap { num_used, free_head, avail_idx, last_used_idx, shadow: (0..N).map(|i| q.verif_shadow_desc(i)).collect(), indirect: vec![false; N] })
+}
+#[cfg(all(not(feature = "alloc"), not(feature = "na-hooks")))]
+pub fn snap<const N: usize>(_q: &VirtQueue<LedgerHal, N>) -> Option<Snap> { None }
+#[cfg(any(feature = "alloc", feature = "na-hooks"))]
+pub fn set_indices<const N: usize>(q: &mut VirtQueue<LedgerHal, N>, start: u16) { q.verif_set_indices(start); }
+#[cfg(all(not(feature = "alloc"), not(feature = "na-hooks")))]
+pub fn set_indices<const N: usize>(_q: &mut VirtQueue<LedgerHal, N>, _start: u16) { panic!("no index hook in this build"); }
+/// the starting index a history can really have in this build
+pub fn eff_start(start: u16) -> u16 { if HAVE_HOOKS { start } else { 0 } }
+
 #[derive(Clone, Copy, Default)]
 pub struct QAddr { pub desc: u64, pub drv: u64, pub dev: u64, pub size: usize }
 thread_local! {
@@ -177,7 +205,10 @@ pub struct Rig<const N: usize> {
     pub t: ModelTransport,
     pub st: Rc<RefCell<TState>>,
     pub a: QAddr,
+    /// the queue uses indirect tables: requested at `VirtQueue::new` AND the crate is built with `alloc`
     pub indirect: bool,
+    /// what was passed to `VirtQueue::new`
+    pub indirect_req: bool,
     pub event_idx: bool,
     pub avail_idx: u16,      // harness's own count of successful adds (mod 2^16)
     pub last_used: u16,      // ... of successful pops
@@ -229,6 +260,7 @@ thread_local! {
 
 impl<const N: usize> Rig<N> {
     pub fn new(ctx: &mut Ctx, indirect: bool, event_idx: bool, ap: bool, start: u16) -> Option<Self> {
+        let start = eff_start(start);
         hal::reset();
         if RIG_ZERO_SHARE.with(|z| z.get()) { hal::share_from_zero(true); ctx.tr.note("hist_share_address_zero"); }
         BUFIDS.with(|b| b.borrow_mut().clear());
@@ -240,7 +272,11 @@ impl<const N: usize> Rig<N> {
         st.legacy = legacy;
         if legacy { ctx.tr.note("hist_legacy_layout"); }
         let (mut t, st) = ModelTransport::new(st);
-        let q = VirtQueue::<LedgerHal, N>::new(&mut t, 0, indirect, event_idx, ap).ok()?;
+        let qr = VirtQueue::<LedgerHal, N>::new(&mut t, 0, indirect, event_idx, ap);
+        // alloc-less build (kind 169, creation form): on a transport that permits it and a platform that has the memory, the queue
+        // is created whatever was requested. ins: [requested indirect; creation failed]
+        if !HAVE_INDIRECT { ctx.tr.line(169, &[indirect as u128, qr.is_err() as u128], &[1]); }
+        let q = qr.ok()?;
         let mut q = Box::new(q);
         let qi = st.borrow().queues[0];
         let a = QAddr { desc: qi.desc, drv: qi.drv, dev: qi.dev, size: N };
@@ -254,12 +290,12 @@ impl<const N: usize> Rig<N> {
         if r1.2 == 9 || r2.2 == 9 { ctx.tr.note("queue_registered_outside_dma_memory"); return None; }
         ctx.tr.line(100, &[N as u128, indirect as u128, event_idx as u128], &[]);
         if start != 0 {
-            q.verif_set_indices(start);
+            set_indices(&mut q, start);
             hal::dev_write_u16(a.dev + 2, start).unwrap();
             ctx.tr.line(101, &[start as u128], &[]);
         }
         C02.with(|c| *c.borrow_mut() = Some(C02State { a, start, cursor_seq: 0, entries: vec![], inprogress: None, next_seq: 0, checks: 0, violations: vec![] }));
-        Some(Rig { q, t, st, a, indirect, event_idx, avail_idx: start, last_used: start, dev_used_idx: start,
+        Some(Rig { q, t, st, a, indirect: indirect && HAVE_INDIRECT, indirect_req: indirect, event_idx, avail_idx: start, last_used: start, dev_used_idx: start,
             subs: vec![], used_order: vec![], next_id: 1, quiet_visible: false, honest: true })
     }
 
@@ -311,7 +347,7 @@ impl<const N: usize> Rig<N> {
     /// ins: [buffers; queue size; class; is QueueFull; shares; device-visible and private state unchanged]
     pub fn add_oversized(&mut self, ctx: &mut Ctx, n: usize) {
         let data = vec![0x5au8; n];
-        let snap_before = if N <= 64 { Some(self.q.verif_snapshot()) } else { None };
+        let snap_before = if N <= 64 { snap(&self.q) } else { None };
         let vis_before = (hal::dev_read(self.a.desc, 16 * N).ok(), hal::dev_read(self.a.drv, 4 + 2 * N + 2).ok());
         let mark = hal::log_len();
         let r = {
@@ -324,7 +360,7 @@ impl<const N: usize> Rig<N> {
         };
         let evs = hal::log_since(mark);
         let shares = evs.iter().filter(|e| matches!(e, Ev::Share { .. })).count();
-        let same = snap_before.map(|sb| sb == self.q.verif_snapshot()).unwrap_or(true)
+        let same = snap_before.map(|sb| Some(sb) == snap(&self.q)).unwrap_or(true)
             && vis_before == (hal::dev_read(self.a.desc, 16 * N).ok(), hal::dev_read(self.a.drv, 4 + 2 * N + 2).ok());
         let (class, full) = match &r { Ok(Ok(_)) => (0u128, 0u128), Ok(Err(virtio_drivers::Error::QueueFull)) => (1, 1), Ok(Err(_)) => (1, 0), Err(_) => (2, 0) };
         ctx.tr.line(163, &[n as u128, N as u128, class, full, shares as u128, same as u128], &[1]);
@@ -333,11 +369,12 @@ impl<const N: usize> Rig<N> {
         if class != 1 { self.subs.clear(); }
     }
 
-    /// C01 / C03 / C04 / C07 (kinds 111, 169): a submission during which the heap refuses the allocation of the indirect
+    /// C01 / C03 / C04 / C07 (kinds 111, 149): a submission during which the heap refuses the allocation of the indirect
     /// table (a fault at a particular point). Line 111 = the call itself against the model (`add_af`: a panic out of an
-    /// untouched queue when the table is wanted, the ordinary `add` otherwise); line 169 = MONITOR
+    /// untouched queue when the table is wanted, the ordinary `add` otherwise); line 149 = MONITOR
     /// [buffers; queue size; class; the refused allocation was reached; shares; private and device-visible state unchanged;
     ///  every other outstanding chain still reads as before].
+    #[cfg(feature = "alloc")]
     pub fn add_alloc_fail(&mut self, ctx: &mut Ctx, lens_in: &[usize], lens_out: &[usize]) {
         let n = lens_in.len() + lens_out.len();
         let ins: Vec<Box<[u8]>> = lens_in.iter().map(|l| ctx.rng.bytes(*l).into_boxed_slice()).collect();
@@ -370,7 +407,7 @@ impl<const N: usize> Rig<N> {
         o.extend(enc_qevents(&evs, head));
         ctx.tr.line(111, &i, &o);
         let class = match &r { Ok(Ok(_)) => 0u128, Ok(Err(_)) => 1, Err(_) => 2 };
-        ctx.tr.line(169, &[n as u128, N as u128, class, (hit > 0) as u128, shares as u128, same as u128, others as u128], &[1]);
+        ctx.tr.line(149, &[n as u128, N as u128, class, (hit > 0) as u128, shares as u128, same as u128, others as u128], &[1]);
         ctx.tr.note(if hit > 0 { "add_table_alloc_refused" } else { "add_table_alloc_not_reached" });
         // a submission that was accepted although the table could not be had has changed the queue under the feet of the model
         if class == 0 { std::mem::forget(ins); std::mem::forget(outs); self.subs.clear(); }
@@ -411,6 +448,17 @@ impl<const N: usize> Rig<N> {
         o.extend(enc_qevents(&evs, head));
         ctx.tr.line(110, &i, &o);
         ctx.tr.note(match &r { Ok(Ok(_)) => "add_ok", Ok(Err(_)) => "add_refused", Err(_) => "add_panic" });
+        if !HAVE_INDIRECT && self.honest {
+            // alloc-less build, C03 (kind 151): the outcome of add follows from what the outstanding chains hold (one descriptor
+            // per buffer, the harness's own count): nothing offered -> InvalidParam; it fits -> accepted, every buffer shared once;
+            // it does not fit -> QueueFull; a refusal shares nothing.
+            // ins: [queue size; descriptors held; buffers offered; class; error code; shares during the call; requested indirect]
+            let held: usize = self.subs.iter().map(|s| s.ins.len() + s.outs.len()).sum();
+            let shares = evs.iter().filter(|e| matches!(e, Ev::Share { .. })).count();
+            let rc = enc_result(&r, |h| *h as u128);
+            ctx.tr.line(151, &[N as u128, held as u128, (lens_in.len() + lens_out.len()) as u128, rc[0], if rc[0] == 1 { rc[1] } else { 0 }, shares as u128, self.indirect_req as u128], &[1]);
+            ctx.tr.note(if held + lens_in.len() + lens_out.len() == N { "na_add_exactly_full" } else if held + lens_in.len() + lens_out.len() == N + 1 { "na_add_one_too_many" } else { "na_add_other" });
+        }
         match r {
             Ok(Ok(tok)) => {
                 self.avail_idx = self.avail_idx.wrapping_add(1);
@@ -424,6 +472,7 @@ impl<const N: usize> Rig<N> {
                 let ring_val = hal::dev_read_u16(self.a.drv + 4 + 2 * slot as u64).unwrap();
                 let aidx_now = hal::dev_read_u16(self.a.drv + 2).unwrap();
                 let (walk, idxs) = self.device_walk(ring_val);
+                let head_is_indirect = walk[0];
                 let mut others: Vec<u128> = vec![];
                 for s in &self.subs { for x in &s.idxs { others.push(*x as u128); } }
                 let mut m = vec![N as u128, self.indirect as u128, old_idx as u128, tok as u128, ring_val as u128, aidx_now as u128,
@@ -432,6 +481,16 @@ impl<const N: usize> Rig<N> {
                 m.push(others.len() as u128); m.extend(others);
                 m.extend(walk);
                 ctx.tr.line(150, &m, &[1]);
+                if !HAVE_INDIRECT && !self.quiet_visible {
+                    // alloc-less build, C01 / C08 (kind 169): whatever was requested at VirtQueue::new (RING_INDIRECT_DESC negotiated
+                    // or not), no descriptor the device can read carries INDIRECT and no table was shared.
+                    // ins: [requested indirect; buffers; the published head reads as an indirect descriptor; descriptors of the
+                    //       whole table carrying INDIRECT; shares during the call that are not caller buffers]
+                    let flagged = (0..N).filter(|i| read_desc(&self.a, *i).map(|d| d.2 & 4 != 0).unwrap_or(true)).count();
+                    let tshares = evs.iter().filter(|e| if let Ev::Share { vaddr, .. } = e { BUFIDS.with(|b| !b.borrow().contains_key(vaddr)) } else { false }).count();
+                    ctx.tr.line(169, &[self.indirect_req as u128, (lens_in.len() + lens_out.len()) as u128, head_is_indirect, flagged as u128, tshares as u128], &[1]);
+                    if self.indirect_req { ctx.tr.note("na_indirect_requested_published_direct"); }
+                }
                 if idxs.len() > 1 || lens_in.len() + lens_out.len() > 1 { ctx.tr.note(if self.indirect { "chain_multi_indirect" } else { "chain_multi_direct" }); }
                 self.subs.push(Sub { token: tok, ins, outs, ids, addrs, idxs, completed: false, written: vec![] });
                 Some(tok)
@@ -480,7 +539,7 @@ impl<const N: usize> Rig<N> {
     fn pop_impl(&mut self, ctx: &mut Ctx, k: usize, token: u16, lenient: bool) -> bool {
         let (ui, uid, ulen) = self.used_view();
         let mark = hal::log_len();
-        let snap_before = if N <= 64 { Some(self.q.verif_snapshot()) } else { None };
+        let snap_before = if N <= 64 { snap(&self.q) } else { None };
         let before: Vec<Vec<u8>> = self.subs[k].outs.iter().map(|b| b.to_vec()).collect();
         let r = {
             let sub = &mut self.subs[k];
@@ -500,7 +559,7 @@ impl<const N: usize> Rig<N> {
         let ok = matches!(r, Ok(Ok(_)));
         if let (false, Some(sb), Ok(Err(_))) = (ok, &snap_before, &r) {
             // C03: a poll that finds nothing ready or a non-matching token changes nothing
-            let same = *sb == self.q.verif_snapshot();
+            let same = Some(sb) == snap(&self.q).as_ref();
             ctx.tr.line(159, &[same as u128, evs.len() as u128], &[1]);
         }
         if !lenient {
@@ -574,11 +633,12 @@ impl<const N: usize> Rig<N> {
     /// private-state (diagnostic) and device-visible state lines; only for small queues
     pub fn snapshots(&mut self, ctx: &mut Ctx) {
         if N > 64 { return; }
-        let s = self.q.verif_snapshot();
-        let mut o = vec![s.num_used as u128, s.free_head as u128, s.avail_idx as u128, s.last_used_idx as u128];
-        for d in &s.shadow { o.extend([d.0 as u128, d.1 as u128, d.2 as u128, d.3 as u128]); }
-        for b in &s.indirect { o.push(*b as u128); }
-        ctx.tr.line(140, &[], &o);
+        if let Some(s) = snap(&self.q) {
+            let mut o = vec![s.num_used as u128, s.free_head as u128, s.avail_idx as u128, s.last_used_idx as u128];
+            for d in &s.shadow { o.extend([d.0 as u128, d.1 as u128, d.2 as u128, d.3 as u128]); }
+            for b in &s.indirect { o.push(*b as u128); }
+            ctx.tr.line(140, &[], &o);
+        }
         if self.quiet_visible { return; }
         let mut v = vec![hal::dev_read_u16(self.a.drv).unwrap() as u128, hal::dev_read_u16(self.a.drv + 2).unwrap() as u128,
                          hal::dev_read_u16(self.a.drv + 4 + 2 * N as u64).unwrap() as u128];
@@ -652,7 +712,10 @@ pub fn history<const N: usize>(ctx: &mut Ctx, flags: u8, start: u16, nops: usize
             let n_in = ctx.rng.range(0, total as u64) as usize;
             let li: Vec<usize> = (0..n_in).map(|_| 1 + ctx.rng.below(max_buf as u64) as usize).collect();
             let lo: Vec<usize> = (0..total - n_in).map(|_| 1 + ctx.rng.below(max_buf as u64) as usize).collect();
+            #[cfg(feature = "alloc")]
             rig.add_alloc_fail(ctx, &li, &lo);
+            #[cfg(not(feature = "alloc"))]
+            { let _ = (&li, &lo); }
         } else if r < 96 {
             // more buffers than descriptors, with whatever is outstanding at this point
             let n = match ctx.rng.below(4) { 0 => N + 1, 1 => N + 2, 2 => 2 * N + 1, _ => if N <= 64 { 65536 + ctx.rng.below(N as u64 + 1) as usize } else { N + 1 } };
@@ -735,10 +798,129 @@ pub fn anwp_refused<const N: usize>(ctx: &mut Ctx, flags: u8) {
     let evs2 = hal::log_since(mark);
     let unshares2 = evs2.iter().filter(|e| matches!(e, Ev::Unshare { .. })).count();
     let class2 = match &r2 { Ok(Ok(_)) => 0u128, Ok(Err(_)) => 1, Err(_) => 2 };
-    let expect_shares = if indirect { 3 } else { 2 };
+    let expect_shares = if indirect && HAVE_INDIRECT { 3 } else { 2 };
     ctx.tr.line(167, &[class, wrong, unshares as u128, shares as u128, expect_shares, class2, unshares2 as u128, hal::violations().len() as u128], &[1]);
     ctx.tr.note("anwp_refused_by_earlier_completion");
     ledger_line(ctx);
+}
+
+// ------------------------------------------------------------------------------------------------
+// Directed histories around the capacity test of the alloc-less build (`num_used + needed > SIZE`, always add_direct):
+// chains of 1..N and N+1.. buffers, exactly-full queues in several partitions, one more refused, recycling in every
+// order (all permutations while there are at most four chains), re-use of the freed descriptors, indices across the 16-bit
+// wrap when the pre-set hook exists. Indirect descriptors are REQUESTED in half of them (VirtQueue::new ignores it there).
+fn permutations(k: usize) -> Vec<Vec<usize>> {
+    if k == 0 { return vec![vec![]]; }
+    let mut out = vec![];
+    for p in permutations(k - 1) { for pos in 0..k { let mut q = p.clone(); q.insert(pos, k - 1); out.push(q); } }
+    out
+}
+impl<const N: usize> Rig<N> {
+    /// the device completes the outstanding chains in the order given (positions in `subs` at the time of the call),
+    /// then the driver consumes them in that order; after every pop the counts are queried
+    fn complete_and_pop_in(&mut self, ctx: &mut Ctx, order: &[usize]) -> bool {
+        let toks: Vec<u16> = order.iter().map(|k| self.subs[*k].token).collect();
+        for t in &toks { let k = self.subs.iter().position(|s| s.token == *t).unwrap(); self.device_complete(ctx, k, None, None); }
+        for t in &toks {
+            let k = match self.subs.iter().position(|s| s.token == *t) { Some(k) => k, None => return false };
+            if !self.pop(ctx, k, *t) { return false; }
+            self.queries(ctx);
+        }
+        true
+    }
+    fn add_n(&mut self, ctx: &mut Ctx, n: usize) -> Option<u16> {
+        let n_in = if n == 0 { 0 } else { ctx.rng.range(0, n as u64) as usize };
+        let li: Vec<usize> = (0..n_in).map(|_| 1 + ctx.rng.below(24) as usize).collect();
+        let lo: Vec<usize> = (0..n - n_in).map(|_| 1 + ctx.rng.below(24) as usize).collect();
+        self.add(ctx, &li, &lo)
+    }
+}
+pub fn directed_capacity<const N: usize>(ctx: &mut Ctx, flags: u8, start: u16) {
+    let mut rig = match Rig::<N>::new(ctx, flags & 1 != 0, flags & 2 != 0, flags & 4 != 0, start) { Some(r) => r, None => return };
+    ctx.tr.note(&format!("directed_size_{}", N));
+    if flags & 1 != 0 { ctx.tr.note("directed_indirect_requested"); }
+    // (a) one chain of every length on the empty queue; N + 1 and more are refused; nothing offered is refused
+    let lens: Vec<usize> = if N <= 16 { (1..=N).collect() } else { vec![1, 2, 3, N / 2, N - 1, N] };
+    for n in lens {
+        if rig.add_n(ctx, n).is_none() { ctx.tr.note("directed_chain_refused"); rig.snapshots(ctx); rig.finish(ctx); return; }
+        rig.queries(ctx);
+        if n == N { rig.add_n(ctx, 1); rig.snapshots(ctx); }
+        if !rig.complete_and_pop_in(ctx, &[0]) { rig.snapshots(ctx); rig.finish(ctx); return; }
+    }
+    rig.add_n(ctx, 0);
+    rig.add_n(ctx, N + 1);
+    if N <= 16 { rig.add_n(ctx, N + 2); rig.add_n(ctx, 2 * N); }
+    for n in [N + 1, 2 * N + 1, 65536, 65536 + N] { if N <= 64 || n == N + 1 { rig.add_oversized(ctx, n); } }
+    rig.snapshots(ctx);
+    // (b) exactly full, in several partitions; one more is refused; then recycling in every order
+    let mut parts: Vec<Vec<usize>> = vec![vec![1; N]];
+    if N >= 2 { parts.push(vec![N]); parts.push(vec![1, N - 1]); parts.push(vec![N - 1, 1]); parts.push(vec![N / 2, N - N / 2]); }
+    if N >= 4 { parts.push(vec![1, 2, N - 3]); parts.push(vec![N / 4; 4]); let mut v = vec![2; N / 2 - 1]; v.push(1); v.push(1); parts.push(v); }
+    for part in parts {
+        let orders: Vec<Vec<usize>> = if part.len() <= 4 { permutations(part.len()) } else {
+            let k = part.len();
+            let mut v = vec![(0..k).collect::<Vec<_>>(), (0..k).rev().collect::<Vec<_>>()];
+            for _ in 0..2 { let mut p: Vec<usize> = (0..k).collect(); for i in (1..k).rev() { let j = ctx.rng.below(i as u64 + 1) as usize; p.swap(i, j); } v.push(p); }
+            v };
+        for order in orders {
+            for n in &part { if rig.add_n(ctx, *n).is_none() { ctx.tr.note("directed_fill_refused"); } }
+            ctx.tr.note("directed_exactly_full");
+            rig.queries(ctx);
+            // full: one buffer more, a chain more, nothing at all
+            rig.add_n(ctx, 1); rig.add_n(ctx, 2.min(N)); rig.add_n(ctx, 0);
+            rig.snapshots(ctx);
+            let order: Vec<usize> = order.into_iter().filter(|k| *k < rig.subs.len()).collect();
+            if !rig.complete_and_pop_in(ctx, &order) { rig.snapshots(ctx); rig.finish(ctx); return; }
+            // whatever could not be placed above is drained too
+            while !rig.subs.is_empty() { if !rig.complete_and_pop_in(ctx, &[0]) { rig.snapshots(ctx); rig.finish(ctx); return; } }
+            rig.snapshots(ctx);
+        }
+    }
+    // (c) next to the boundary: N - k descriptors held, k + 1 offered (refused), then k (accepted: full), then one more (refused);
+    //     the freed descriptors of a popped chain are used again by the next submission
+    for k in 1..=N.min(4) {
+        for _ in 0..N - k { rig.add_n(ctx, 1); }
+        rig.add_n(ctx, k + 1);
+        rig.queries(ctx);
+        rig.add_n(ctx, k);
+        rig.add_n(ctx, 1);
+        rig.queries(ctx);
+        // pop one chain in the middle, re-use its descriptors, fill again
+        if rig.subs.is_empty() { break; }
+        let mid = rig.subs.len() / 2;
+        let freed = rig.subs[mid].ins.len() + rig.subs[mid].outs.len();
+        if !rig.complete_and_pop_in(ctx, &[mid]) { rig.snapshots(ctx); rig.finish(ctx); return; }
+        rig.add_n(ctx, freed + 1);
+        rig.add_n(ctx, freed);
+        rig.snapshots(ctx);
+        let k_all: Vec<usize> = (0..rig.subs.len()).rev().collect();
+        if !rig.complete_and_pop_in(ctx, &k_all) { rig.snapshots(ctx); rig.finish(ctx); return; }
+    }
+    rig.queries(ctx);
+    rig.snapshots(ctx);
+    rig.finish(ctx);
+}
+/// the directed histories of the alloc-less build (run by its registry in scen/mod.rs under C01-C04)
+pub fn noalloc_directed(ctx: &mut Ctx, name: &str) {
+    let sizes: &[usize] = if ctx.tier_thorough { &[1, 2, 4, 8, 16, 32, 64] } else { &[1, 2, 4, 8, 16, 64] };
+    let mut h = 0u64;
+    for size in sizes {
+        for flags in 0..8u8 {
+            // quick tier: every flag combination on the small queues, the indirect-requesting ones on the larger
+            if !ctx.tier_thorough && *size > 4 && flags & 1 == 0 && flags != 0 { continue; }
+            let start = match h % 4 { 0 => 0u16, 1 => 65535 - (*size as u16), 2 => 65533, _ => 32767 };
+            h += 1;
+            ctx.tr.scenario(&format!("{}-noalloc-directed-n{}-f{}-s{}", name, size, flags, start));
+            RIG_LEGACY.with(|l| l.set(h % 5 == 4));
+            match size {
+                1 => directed_capacity::<1>(ctx, flags, start), 2 => directed_capacity::<2>(ctx, flags, start),
+                4 => directed_capacity::<4>(ctx, flags, start), 8 => directed_capacity::<8>(ctx, flags, start),
+                16 => directed_capacity::<16>(ctx, flags, start), 32 => directed_capacity::<32>(ctx, flags, start),
+                _ => directed_capacity::<64>(ctx, flags, start),
+            }
+            RIG_LEGACY.with(|l| l.set(false));
+        }
+    }
 }
 
 /// the standard batch of histories used by C01-C04
